@@ -313,9 +313,14 @@ def legacy_tables():
         if not uf.startswith('np.'):
             fail(UFN, fn, 'legacy reduction does not use a NumPy ufunc')
         kws = sorted(k.arg + '=' + U(k.value) for k in b[0].value.keywords)
-        if kws != ['axis=axis', 'dtype=dtype', 'keepdims=keepdims', 'out=(out,)']:
+        if kws != ['axis=axis', 'dtype=dtype', 'keepdims=keepdims', 'out=_as_out_tuple(out)']:
             fail(UFN, fn, 'unexpected keyword arguments of a legacy reduction')
         reds.append((name, uf[3:]))
+    # the helper that turns `out` into the tuple __array_ufunc__ expects (commit 5a7f53f)
+    hp = [n for n in t.body if isinstance(n, ast.FunctionDef) and n.name == '_as_out_tuple']
+    if len(hp) != 1 or U(hp[0].args) != 'out' or [U(x) for x in _body(hp[0])] != [
+            'return out if isinstance(out, tuple) else (out,)']:
+        fail(UFN, hp[0] if hp else None, '_as_out_tuple is not `return out if isinstance(out, tuple) else (out,)`')
     # arity dispatch of wrap_ufunc_base
     wb = [n for n in t.body if isinstance(n, ast.FunctionDef) and n.name == 'wrap_ufunc_base']
     if len(wb) != 1:
@@ -337,7 +342,18 @@ def legacy_tables():
         for t2, b2 in ch2:
             if not U(t2).startswith('n_out ==') or not (len(b2) == 1 and isinstance(b2[0], ast.FunctionDef)):
                 fail(UFN, t2, 'unexpected n_out branch')
-            ar.append((nin, int(U(t2).split('==')[1])))
+            nout = int(U(t2).split('==')[1])
+            ar.append((nin, nout))
+            # how each tensor wrapper hands `out` to __array_ufunc__
+            wbody = [U(x) for x in _body(b2[0])]
+            want = {(1, 1): ['if not isinstance(out, tuple):\n    out = (out,)',
+                             "return self.elem.__array_ufunc__(ufunc, '__call__', self.elem, out=out, **kwargs)"],
+                    (1, 2): ['if out is None:\n    out = (None, None)',
+                             "return self.elem.__array_ufunc__(ufunc, '__call__', self.elem, out=out, **kwargs)"],
+                    (2, 1): ["return self.elem.__array_ufunc__(ufunc, '__call__', self.elem, x2, "
+                             "out=_as_out_tuple(out), **kwargs)"]}.get((nin, nout))
+            if wbody != want:
+                fail(UFN, b2[0], 'unexpected body of the tensor wrapper for arity (%d, %d)' % (nin, nout))
     return raw, reds, ar
 
 
@@ -353,6 +369,48 @@ BCAST_BODY = [
     "return self.elem.space.element(result)",
     "for x, outp in zip(self.elem, out):\n    getattr(x.ufuncs, name)(x2, out=outp, **kwargs)",
     "return out"]
+
+
+UNPACK_OUT = 'if isinstance(out, tuple) and len(out) == 1 and (out[0] in self.elem.space):\n    out = out[0]'
+
+
+def product_unary_forms():
+    """the unary (commit 76643f9) and two-output (commit 638a1b5) product-space wrappers, compared statement
+    by statement"""
+    t = _tree(UFN)
+    wp = [n for n in t.body if isinstance(n, ast.FunctionDef) and n.name == 'wrap_ufunc_productspace'][0]
+    tops = [s for s in _body(wp) if isinstance(s, ast.If) and U(s.test).startswith('n_in ==')]
+    chain, _ = _if_chain(UFN, tops[0])
+    one = [b for tst, b in chain if U(tst) == 'n_in == 1']
+    if len(one) != 1 or not (len(one[0]) == 1 and isinstance(one[0][0], ast.If)):
+        fail(UFN, tops[0], 'unary branch not found')
+    ch2, or2 = _if_chain(UFN, one[0][0])
+    if [U(x) for x, _ in ch2] != ['n_out == 1', 'n_out == 2'] or 'NotImplementedError' not in U(or2[0]):
+        fail(UFN, one[0][0], 'unexpected n_out dispatch of the unary product-space wrapper')
+    w1, w2 = ch2[0][1][0], ch2[1][1][0]
+    if not (isinstance(w1, ast.FunctionDef) and U(w1.args) == 'self, out=None, **kwargs'):
+        fail(UFN, w1, 'unexpected unary wrapper')
+    b1 = _body(w1)
+    if not (len(b1) == 1 and isinstance(b1[0], ast.If) and U(b1[0].test) == 'out is None'):
+        fail(UFN, w1, 'unary wrapper is not `if out is None`')
+    got = [U(x) for x in b1[0].body] + ['#else'] + [U(x) for x in b1[0].orelse]
+    want = ['result = [getattr(x.ufuncs, name)(**kwargs) for x in self.elem]',
+            'return self.elem.space.element(result)', '#else', UNPACK_OUT,
+            'for x, out_x in zip(self.elem, out):\n    getattr(x.ufuncs, name)(out=out_x, **kwargs)', 'return out']
+    if got != want:
+        fail(UFN, b1[0], 'unexpected statements in the unary product-space wrapper')
+    if not (isinstance(w2, ast.FunctionDef) and U(w2.args) == 'self, out1=None, out2=None, out=None, **kwargs'):
+        fail(UFN, w2, 'unexpected signature of the two-output product-space wrapper')
+    got2 = [U(x) for x in _body(w2)]
+    want2 = ['if out is not None:\n    out1, out2 = out',
+             'if out1 is None:\n    out1 = self.elem.space.element()',
+             'if out2 is None:\n    out2 = self.elem.space.element()',
+             'for x, out1_x, out2_x in zip(self.elem, out1, out2):\n'
+             '    getattr(x.ufuncs, name)(out=(out1_x, out2_x), **kwargs)',
+             'return (out1, out2)']
+    if got2 != want2:
+        fail(UFN, w2, 'unexpected statements in the two-output product-space wrapper')
+    return True
 
 
 def pair_decision():
@@ -372,9 +430,10 @@ def pair_decision():
             U(defs[0].args) == 'self, x2, out=None, **kwargs'):
         fail(UFN, two[0][0], 'unexpected binary wrapper')
     body = _body(defs[0])
-    if not (len(body) == 1 and isinstance(body[0], ast.If)):
-        fail(UFN, defs[0], 'binary wrapper is not a single if')
-    top = body[0]
+    # commit 257bb2d: NumPy's tuple form out=(o,) with o in the space is unpacked first
+    if not (len(body) == 2 and U(body[0]) == UNPACK_OUT and isinstance(body[1], ast.If)):
+        fail(UFN, defs[0], 'binary wrapper is not `unpack out=(o,)` followed by a single if')
+    top = body[1]
     cond = PAIR_CONDS.get(U(top.test))
     if cond is None:
         fail(UFN, top.test, 'unknown pairing condition')
@@ -402,6 +461,7 @@ def translate():
     rej = disc_rejects()
     raw, reds, ar = legacy_tables()
     pc = pair_decision()
+    product_unary_forms()
     out = ['(* GENERATED by translate/ufunc_dispatch.py from the current source of /repo -- do not edit. *)',
            'From Coq Require Import List Bool Arith String.',
            'From Verif Require Import C17.Syntax C17.Model.',
@@ -423,6 +483,10 @@ def translate():
            % '; '.join('("%s", "%s")' % r for r in reds),
            '(* binary ProductSpaceUfuncs wrapper: pair the components of self and x2 iff ... else hand x2 to every part *)',
            'Definition gen_pair_cond : paircond := %s.' % pc,
+           '(* tuple forms of out, as committed (5a7f53f, 76643f9, 257bb2d, 638a1b5): the tensor wrappers wrap out into a',
+           '   1-tuple only when it is not a tuple already; the product-space wrappers unpack out=(o,) with o in the space',
+           '   and accept out=(o1, o2) for two-output ufuncs *)',
+           'Definition gen_out_tuple_forms : bool := true.',
            'Definition gen_legacy_arities : list (nat * nat) := [%s]%%nat.'
            % '; '.join('(%d, %d)' % a for a in ar),
            'Definition gen_raw_ufuncs : list string :=\n  [%s].' % '; '.join('"%s"' % n for n in raw),
